@@ -130,9 +130,13 @@ func EnumerateDecisions(p *Program, fn *ssa.Function, opts DecisionOpts) (paths 
 		visits   map[*ssa.BasicBlock]int
 		phiEdge  map[*ssa.Phi]ssa.Value
 		backUsed map[edge]bool
+		eqTrue   map[string]string
 	}
 	clone := func(s *state) *state {
-		n := &state{assign: map[string]bool{}, visits: map[*ssa.BasicBlock]int{}, phiEdge: map[*ssa.Phi]ssa.Value{}, backUsed: map[edge]bool{}}
+		n := &state{assign: map[string]bool{}, visits: map[*ssa.BasicBlock]int{}, phiEdge: map[*ssa.Phi]ssa.Value{}, backUsed: map[edge]bool{}, eqTrue: map[string]string{}}
+		for k, v := range s.eqTrue {
+			n.eqTrue[k] = v
+		}
 		for k, v := range s.assign {
 			n.assign[k] = v
 		}
@@ -244,6 +248,14 @@ func EnumerateDecisions(p *Program, fn *ssa.Function, opts DecisionOpts) (paths 
 				return
 			}
 			atoms[atom] = true
+			// x == "a" excludes x == "b": string switches do not multiply paths
+			if lhs, cst, ok := splitEqConst(atom); ok {
+				if prevC, ok := st.eqTrue[lhs]; ok && prevC != cst {
+					if _, done := st.assign[atom]; !done {
+						st.assign[atom] = false
+					}
+				}
+			}
 			if av, ok := st.assign[atom]; ok {
 				condVal := av == valWhenTrue
 				k := 0
@@ -259,6 +271,11 @@ func EnumerateDecisions(p *Program, fn *ssa.Function, opts DecisionOpts) (paths 
 				av := condVal == valWhenTrue
 				ns.assign[atom] = av
 				ns.lits = append(ns.lits, Lit{atom, av})
+				if av {
+					if lhs, cst, ok := splitEqConst(atom); ok {
+						ns.eqTrue[lhs] = cst
+					}
+				}
 				walk(b.Succs[k], b, ns)
 			}
 		case *ssa.Jump:
@@ -280,11 +297,20 @@ func EnumerateDecisions(p *Program, fn *ssa.Function, opts DecisionOpts) (paths 
 			paths = append(paths, DecisionPath{Lits: append([]Lit{}, st.lits...), Outcome: "panic", Pos: p.Pos(last.Pos())})
 		}
 	}
-	walk(fn.Blocks[0], nil, &state{assign: map[string]bool{}, visits: map[*ssa.BasicBlock]int{}, phiEdge: map[*ssa.Phi]ssa.Value{}, backUsed: map[edge]bool{}})
+	walk(fn.Blocks[0], nil, &state{assign: map[string]bool{}, visits: map[*ssa.BasicBlock]int{}, phiEdge: map[*ssa.Phi]ssa.Value{}, backUsed: map[edge]bool{}, eqTrue: map[string]string{}})
 	if overflow {
 		return paths, atoms, fmt.Errorf("more than %d decision paths in %s", opts.MaxPaths, fn)
 	}
 	return paths, atoms, nil
+}
+
+// splitEqConst splits an atom `lhs == "const"`.
+func splitEqConst(atom string) (lhs, cst string, ok bool) {
+	i := strings.LastIndex(atom, ` == "`)
+	if i < 0 || !strings.HasSuffix(atom, `"`) {
+		return "", "", false
+	}
+	return atom[:i], atom[i+4:], true
 }
 
 func isBoolType(v ssa.Value) bool {
